@@ -23,6 +23,8 @@ def run(chk):
     chk.trusted_base = ["python ast parser"]
     e6.run_S45(chk)
     e3.run_L3(chk)
+    # leg groups of the factorisations are mapped meta -> logical-native -> native (through the pending permutation, in that direction)
+    e3.run_L1(chk, rule="L1", floor=30, only={"svd", "qr", "eigh", "eig", "svd_with_truncation", "eigh_with_truncation", "moveaxis", "_merge_to_matrix"})
     # charge rows of the decompositions only
     from ..core.report import Check
     e6.run_S2(chk)
